@@ -13,7 +13,10 @@
   RIDX1 the implicit checks of `s[a..b]`, `s[..b]`, `s[a..]`, split_at(k), rotate(k): a <= b <= len(s) with
         symbolic lengths (s[..k] -> k, split_at pieces, [_; N] -> N), facts from guards, INV, inferred
         postconditions (translate_range_bounds: start <= end <= len); opaque obligations undecided
-Not decided: single-element bounds checks (counted, infeasible under INV); termination.
+  TERM1 each loop terminates: exit by a std iterator's None; `while size < B` whose body increases size on
+        every path under the loop's facts (callee paths projected); counter loops with an entailed step >= 1
+        (Drain::drop's back-fill step is value-level: undecided, listed)
+Not decided: single-element bounds checks (counted, infeasible under INV).
 """
 from .. import common, effects, guards, mir, panics, shared
 from ..report import short_loc
@@ -61,6 +64,7 @@ def run(ctx, progs):
     ctx.rule("MOD1", "REQUIRES(divisor > 0 / N > 0) discharged before reaching a public entry")
     ctx.rule("ARITH1", "Add/Mul on caller-supplied values only at reviewed sites")
     ctx.rule("SUB1", "no usize subtraction underflows (a debug-build panic / release wrap): REQUIRES(b <= a) discharged")
+    ctx.rule("TERM1", "every loop has a decided progress argument (std iterator exit / size grows under the loop's facts / counter step >= 1); value-level steps undecided")
     ctx.rule("RIDX1", "implicit checks of range indexing / split_at / rotate: REQUIRES(a <= b <= len) with symbolic slice lengths, discharged or propagated")
     ctx.assumptions.append("INV (size <= N, N > 0 => start < N): preservation checked by INV1 under C04")
     ctx.assumptions.append("core's RangeBounds impls for RangeTo/RangeFull/RangeFrom behave as documented")
@@ -77,6 +81,9 @@ def run(ctx, progs):
 
         subrule.report(ctx, prog, cfg)
         subrule.report(ctx, prog, cfg, "RIDX1", floor=25)
+        from .. import termrule
+
+        termrule.term1(ctx, prog, cfg)
         ctx.floor("MOD1", "generator/propagation sites", eng.sites, 40, cfg)
         arith1(ctx, prog, cfg)
         implicit_counts(ctx, prog, cfg)
